@@ -128,6 +128,10 @@ def scenarios(tier, rng):
                "trace": i % 17 == 0, "bytearray": i % 5 == 0}
         if n <= 125 and i % 2 == 0:
             yield {"api": "ping" if i % 4 == 0 else "pong", "lcg": [n, i + 1], "key": keys[(i + 1) % 3]}
+        if n <= 40 and i % 5 == 0:
+            # str payloads of ping/pong are sent as their UTF-8 bytes
+            yield {"api": "ping" if i % 2 else "pong", "text": "".join(chr(c) for c in ([0x68, 0xE9, 0x20AC, 0x1F600, 0x7A] * 8)[:n % 9]),
+                   "key": keys[i % 3]}
         if n <= 123 and i % 3 == 0:
             yield {"api": "send_close" if i % 2 else "close", "status": [1000, 1001, 3000, 4999, 0, 65535][i % 6],
                    "lcg": [n, i + 2], "key": keys[(i + 2) % 3]}
